@@ -32,6 +32,42 @@ def dag_cases(policies):
         pol["lookahead"] = draw(st.sampled_from([0, 5, 15, 30]))
         for g in case["graphs"]:
             g["deadline"] = case["now"] + draw(st.integers(8, 50))
+        cand = [g for g in case["graphs"] if g["jobs"][0]["children"]]
+        if cand and draw(st.integers(0, 3)) == 0:
+            # a parent that is running and overruns its strategy (runtime variance) while its children are planned
+            g = cand[0]
+            gone = lambda rows: [r for r in rows if (r[0] if isinstance(r, list) else r["graph"]) != g["name"]]  # noqa: E731
+            for key in ("completed", "running", "scheduled", "retracted"):
+                case[key] = gone(case.get(key, []))
+            strat = case["profiles"][g["jobs"][0]["profile"]]["strategies"][0]
+            strat["runtime"] = max(strat["runtime"], draw(st.integers(3, 5)))
+            case["running"].append({"graph": g["name"], "job": g["jobs"][0]["name"], "pool": 0, "worker": 0, "strategy": 0,
+                                    "elapsed": draw(st.integers(1, 4)), "overrun": draw(st.integers(1, 4))})
+            g["release_time"] = 0
+            if "release_taskgraphs" in pol and draw(st.booleans()):
+                pol["release_taskgraphs"] = True
+            else:
+                pol["lookahead"] = 30
+            case["shape"] = "overrunning_parent"
+        elif cand and draw(st.integers(0, 3)) == 0:
+            # a parent that holds an earlier plan with its faster strategy and is decided again (retract_schedules) together
+            # with its children: whatever strategy it gets now, the children come after it
+            g = cand[0]
+            gone = lambda rows: [r for r in rows if (r[0] if isinstance(r, list) else r["graph"]) != g["name"]]  # noqa: E731
+            for key in ("completed", "running", "scheduled", "retracted"):
+                case[key] = gone(case.get(key, []))
+            strategies = case["profiles"][g["jobs"][0]["profile"]]["strategies"]
+            if len(strategies) < 2:
+                strategies.append(dict(strategies[0]))
+            strategies[1]["runtime"] = strategies[0]["runtime"] + draw(st.integers(2, 4))
+            case["scheduled"].append({"graph": g["name"], "job": g["jobs"][0]["name"], "pool": 0, "worker": 0, "strategy": 0, "at": draw(st.integers(1, 4))})
+            g["release_time"] = 0
+            pol["retract_schedules"] = True
+            if "release_taskgraphs" in pol and draw(st.booleans()):
+                pol["release_taskgraphs"] = True
+            else:
+                pol["lookahead"] = 30
+            case["shape"] = "replanned_parent"
         return case
 
     return s()
@@ -128,7 +164,7 @@ def execute(case):
     res.counters["feasible_points"] = n_points
     res.counters["pairs_checked"] = pairs
     res.nontrivial = pairs > 0
-    res.classes = [f"policy={pname}", "pairs" if pairs else "no_pairs"]
+    res.classes = [f"policy={pname}", "pairs" if pairs else "no_pairs"] + ([case["shape"]] if case.get("shape") else [])
     if rec["state"]["notes"].get("retracted"):
         res.classes.append("withdrawn_earlier_plan")
     seen, outv = set(), []
